@@ -118,15 +118,15 @@ func checkC19(c *Ctx, e *Env) {
 	ruleM2Literals(c, p)
 	ruleM2NoWrites(c, e, p)
 	// M3
-	ruleGuard(c, p, byName, "C19.M3", "Dec.MulExact", "Condition.Rounded", false, "rounding flag of the multiplication guards every success return")
-	ruleGuard(c, p, byName, "C19.M3", "Dec.QuoExact", "Condition.Rounded", false, "rounding flag of the division guards every success return")
-	ruleGuard(c, p, byName, "C19.M3", "SafeSubBalance", "Dec.IsNegative", false, "negative result is an error")
-	ruleGuard(c, p, byName, "C19.M3", "SubNonNegative", "Dec.IsNegative", false, "negative result is an error")
+	ruleGuard(c, p, byName, "C19.M3", "Dec.MulExact", "Condition.Rounded", false, "rounding flag of the multiplication guards every success return", guardSubject{kind: "op"})
+	ruleGuard(c, p, byName, "C19.M3", "Dec.QuoExact", "Condition.Rounded", false, "rounding flag of the division guards every success return", guardSubject{kind: "op"})
+	ruleGuard(c, p, byName, "C19.M3", "SafeSubBalance", "Dec.IsNegative", false, "negative result is an error", guardSubject{kind: "result"})
+	ruleGuard(c, p, byName, "C19.M3", "SubNonNegative", "Dec.IsNegative", false, "negative result is an error", guardSubject{kind: "result"})
 	ruleBigInt(c, p, byName)
 	// M4
-	ruleGuard(c, p, byName, "C19.M4", "NewNonNegativeDecFromString", "Dec.IsNegative", false, "negative input rejected")
-	ruleGuard(c, p, byName, "C19.M4", "NewPositiveDecFromString", "Dec.IsPositive", true, "non-positive input rejected")
-	ruleGuard(c, p, byName, "C19.M4", "SafeAddBalance", "Dec.IsNegative", false, "negative operand rejected")
+	ruleGuard(c, p, byName, "C19.M4", "NewNonNegativeDecFromString", "Dec.IsNegative", false, "negative input rejected", guardSubject{kind: "result"})
+	ruleGuard(c, p, byName, "C19.M4", "NewPositiveDecFromString", "Dec.IsPositive", true, "non-positive input rejected", guardSubject{kind: "result"})
+	ruleGuard(c, p, byName, "C19.M4", "SafeAddBalance", "Dec.IsNegative", false, "negative operand rejected", guardSubject{kind: "param", param: 0}, guardSubject{kind: "param", param: 1})
 	ruleFixed(c, p, byName, "NewNonNegativeFixedDecFromString", "NewNonNegativeDecFromString")
 	ruleFixed(c, p, byName, "NewPositiveFixedDecFromString", "NewPositiveDecFromString")
 	ruleParse(c, p, byName)
@@ -571,38 +571,220 @@ func ruleM2NoWrites(c *Ctx, e *Env, p *Program) {
 
 // ---- M3/M4 --------------------------------------------------------------------
 
-// ruleGuard: in function fnName, a call to predicate pred exists whose result
-// must equal `want` on every success return.
-func ruleGuard(c *Ctx, p *Program, byName map[string]*ssa.Function, rule, fnName, pred string, want bool, why string) {
-	fn := byName[fnName]
-	key := fnName + "#" + pred
-	if fn == nil {
-		c.Undecide(rule, key, "-", "function "+fnName+" no longer exists")
-		return
+// ---- guard subjects ---------------------------------------------------------------
+//
+// A guard obligation names WHAT must be tested, not only which predicate is called: the value
+// returned on success ("result"), an operand ("param:i") or the condition flags of the arithmetic
+// operation itself ("op"). The test may sit in the function or in a same-package helper the value
+// is handed to (depth-bounded summaries), so extracting `checkExact(cond, err)` changes nothing.
+
+type guardSubject struct {
+	kind  string // result | param | op
+	param int
+}
+
+func (g guardSubject) String() string {
+	switch g.kind {
+	case "param":
+		return fmt.Sprintf("operand %d", g.param)
+	case "op":
+		return "the condition flags of the context operation"
 	}
-	var preds []*ssa.Call
+	return "the returned value"
+}
+
+// valRoot strips loads of local slots: the Alloc for `var z Dec`, the parameter for a spilled
+// parameter, the value itself otherwise.
+func valRoot(v ssa.Value) ssa.Value {
+	for i := 0; i < 4; i++ {
+		u, ok := v.(*ssa.UnOp)
+		if !ok || u.Op != token.MUL {
+			return v
+		}
+		a, ok := u.X.(*ssa.Alloc)
+		if !ok {
+			return v
+		}
+		if sv := uniqueStore(a); sv != nil {
+			if _, isP := sv.(*ssa.Parameter); isP {
+				return sv
+			}
+			if _, isE := sv.(*ssa.Extract); isE {
+				return sv
+			}
+		}
+		return a
+	}
+	return v
+}
+
+// subjectMatches: is v the subject, as seen from return r of fn?
+func subjectMatches(fn *ssa.Function, subj guardSubject, v ssa.Value, r *ssa.Return) bool {
+	root := valRoot(v)
+	switch subj.kind {
+	case "param":
+		p, ok := root.(*ssa.Parameter)
+		return ok && subj.param < len(fn.Params) && p == fn.Params[subj.param]
+	case "op":
+		ex, ok := root.(*ssa.Extract)
+		if !ok || ex.Index != 0 {
+			return false
+		}
+		call, ok := ex.Tuple.(*ssa.Call)
+		if !ok {
+			return false
+		}
+		pkg, name := calleePkgName(&call.Call)
+		return strings.Contains(pkg, "cockroachdb/apd") && strings.HasPrefix(name, "Context.")
+	case "result":
+		if r == nil || len(r.Results) == 0 {
+			return false
+		}
+		return valRoot(r.Results[0]) == root
+	}
+	return false
+}
+
+// errNilEdgeDominates: the block lies behind `ev == nil`.
+func errNilEdgeDominates(ev ssa.Value, blk *ssa.BasicBlock) bool {
+	if ev.Referrers() == nil {
+		return false
+	}
+	for _, r := range *ev.Referrers() {
+		bo, ok := r.(*ssa.BinOp)
+		if !ok || (bo.Op != token.NEQ && bo.Op != token.EQL) || !(isNilConst(bo.X) || isNilConst(bo.Y)) {
+			continue
+		}
+		ifi, neg := ifOn(bo)
+		if ifi == nil {
+			continue
+		}
+		nilBranch := 0
+		if (bo.Op == token.NEQ) != neg {
+			nilBranch = 1
+		}
+		if edgeDominates(ifi.Block(), nilBranch, blk) {
+			return true
+		}
+	}
+	return false
+}
+
+func errValueOf(call *ssa.Call) ssa.Value {
+	sig := call.Call.Signature()
+	idx := errResultIndex(sig)
+	if idx < 0 {
+		return nil
+	}
+	if sig.Results().Len() == 1 {
+		return call
+	}
+	return extractOf(call, idx)
+}
+
+// returnGuarded: does success return r of fn lie behind pred(subject) == want?
+func returnGuarded(fn *ssa.Function, r *ssa.Return, pred string, want bool, subj guardSubject, depth int) bool {
+	idx := errResultIndex(fn.Signature)
 	for _, ci := range callsIn(fn) {
 		call, ok := ci.(*ssa.Call)
-		if !ok {
+		if !ok || len(call.Call.Args) == 0 {
 			continue
 		}
 		_, name := calleePkgName(&call.Call)
-		if name == pred {
-			preds = append(preds, call)
+		if name == pred && !call.Call.IsInvoke() {
+			if !subjectMatches(fn, subj, call.Call.Args[0], r) {
+				continue
+			}
+			ifi, neg := ifOn(call)
+			if ifi == nil {
+				continue
+			}
+			branch := 0
+			if want == neg {
+				branch = 1
+			}
+			if edgeDominates(ifi.Block(), branch, r.Block()) {
+				return true
+			}
+			continue
+		}
+		// same-package helper that receives the subject and fails unless the predicate holds
+		h := call.Call.StaticCallee()
+		if depth <= 0 || h == nil || h == fn || len(h.Blocks) == 0 || fnPkgPath(h) != fnPkgPath(fn) {
+			continue
+		}
+		ev := errValueOf(call)
+		if ev == nil {
+			continue
+		}
+		behind := errNilEdgeDominates(ev, r.Block())
+		if !behind && idx >= 0 && idx < len(r.Results) && r.Results[idx] == ev {
+			behind = true // `return z, helper(...)`: success of fn is success of the helper
+		}
+		if !behind {
+			continue
+		}
+		// (a) the helper receives the subject as an argument and tests it
+		for j, a := range call.Call.Args {
+			if subjectMatches(fn, subj, a, r) && fnGuarded(h, pred, want, guardSubject{kind: "param", param: j}, depth-1) {
+				return true
+			}
+		}
+		// (b) the value returned by fn IS the helper's tested result (constructor chains)
+		if subj.kind == "result" && len(r.Results) > 0 {
+			if ex, ok := valRoot(r.Results[0]).(*ssa.Extract); ok && ex.Tuple == call && ex.Index == 0 && fnGuarded(h, pred, want, guardSubject{kind: "result"}, depth-1) {
+				return true
+			}
+		}
+		// (c) the helper performs the operation and tests its flags itself
+		if subj.kind == "op" && fnGuarded(h, pred, want, subj, depth-1) {
+			return true
 		}
 	}
-	if len(preds) == 0 {
-		c.Violate(rule, key, p.Pos(fn.Pos()), fnName+" no longer tests "+pred+" ("+why+")", nil)
+	return false
+}
+
+func fnGuarded(fn *ssa.Function, pred string, want bool, subj guardSubject, depth int) bool {
+	rets := successReturns(fn)
+	if len(rets) == 0 {
+		return false
+	}
+	for _, r := range rets {
+		if !returnGuarded(fn, r, pred, want, subj, depth) {
+			return false
+		}
+	}
+	return true
+}
+
+// ruleGuard: every success return of fnName lies behind pred(subject) == want, for each subject.
+func ruleGuard(c *Ctx, p *Program, byName map[string]*ssa.Function, rule, fnName, pred string, want bool, why string, subjects ...guardSubject) {
+	fn := byName[fnName]
+	if fn == nil {
+		c.Undecide(rule, fnName+"#"+pred, "-", "function "+fnName+" no longer exists")
 		return
 	}
-	// every operand-level predicate call must guard (SafeAddBalance tests both operands)
-	for i, call := range preds {
-		ok := allSuccessDominatedBy(fn, call, want)
-		k := key
-		if len(preds) > 1 {
-			k = fmt.Sprintf("%s@%d", key, i+1)
+	for i, subj := range subjects {
+		key := fnName + "#" + pred
+		if len(subjects) > 1 {
+			key = fmt.Sprintf("%s@%d", key, i+1)
 		}
-		c.Check(ok, rule, k, p.Pos(call.Pos()), fmt.Sprintf("%s: every success return of %s lies behind %s == %v", why, fnName, pred, want))
+		rets := successReturns(fn)
+		bad := ""
+		for _, r := range rets {
+			if !returnGuarded(fn, r, pred, want, subj, 3) {
+				bad = " — the success return at " + p.Pos(r.Pos()) + " is not behind it"
+				break
+			}
+		}
+		if len(rets) == 0 {
+			bad = " — no success return found"
+		}
+		if bad != "" {
+			c.Violate(rule, key, p.Pos(fn.Pos()), fmt.Sprintf("%s: every success return of %s must lie behind %s == %v tested on %s, in the function or a helper it hands the value to%s", why, fnName, pred, want, subj, bad), nil)
+		} else {
+			c.Hold(rule, key, p.Pos(fn.Pos()), fmt.Sprintf("%s: all %d success returns of %s lie behind %s == %v tested on %s", why, len(rets), fnName, pred, want, subj), nil)
+		}
 	}
 }
 
